@@ -37,11 +37,13 @@ pub fn render_cc(c: &ConcCase, r: &RunResult) -> String {
     .collect();
   let traces: Vec<String> = (0..r.log.recs.len()).map(|k| format!("r{}={}", k, show_trace(&r.trace(k)))).collect();
   format!(
-    "{} || {} || sched={{ov:{:?},walk:{:?},hash:{}}} => {} [{}; switches={}]",
+    "{} || {} || sched={{ov:{:?},walk:{:?},pct:{:?},spurious:{},hash:{}}} => {} [{}; switches={}]",
     c.case.show(),
     th.join(" "),
     c.sched.overrides,
     c.sched.walk,
+    c.sched.pct,
+    c.sched.spurious,
     c.sched.hash_seed,
     traces.join(" "),
     r.outcome.describe(),
